@@ -26,7 +26,7 @@ theorem tyWf_toTy (A : App) (hwf : A.wf = true) (C : ClassDef) (hC : C ∈ A.all
     tyWf (ClassDef.toTy C) = true := by
   unfold App.wf at hwf
   simp only [Bool.and_eq_true] at hwf
-  have hb := hwf.1
+  have hb := hwf.1.1
   unfold App.wfBase at hb
   rw [List.all_eq_true] at hb
   have := hb C hC
@@ -37,7 +37,7 @@ theorem tyWf_toTy (A : App) (hwf : A.wf = true) (C : ClassDef) (hC : C ∈ A.all
     the generated schema iff it is valid for the type the class denotes -/
 theorem valid_gen (A : App) (hwf : A.wf = true) (C : ClassDef) (hC : C ∈ A.iface.classes) (x : Node)
     (hkey : nodeKey x = (C.ns, C.name)) :
-    (gen A).valid x = validS (denote A.facts A.tns C.ns (ClassDef.toTy C)) false x := by
+    (gen A).valid x = validS (denote (primFacetsA A) A.tns C.ns (ClassDef.toTy C)) false x := by
   have hc := closed_of_wf A hwf
   have hCa : C ∈ A.allClasses := List.mem_append.mpr (Or.inl hC)
   have hl := hc.cplx C hCa
@@ -71,17 +71,17 @@ theorem encode_obj_shape (F : Facts08) (cfg : Cfg) (I : Iface) (ns name cname cn
 
 /-- **emitted_valid**: the message document the encoder writes for a conformant instance of a
     registered class is valid against the schema generated for the application -/
-theorem emitted_valid_gen (F : Facts08) (G : F.Good) (A : App) (hwf : A.wf = true) (cfg : Cfg)
+theorem emitted_valid_gen (A : App) (G : A.leaf.Good) (hwf : A.wf = true) (cfg : Cfg)
     (C : ClassDef) (hC : C ∈ A.iface.classes) (vs : List (Text × Val))
     (hc : conformsOne (ClassDef.toTy C) (.obj C.name vs) = true)
-    (hr : xsdRepresentable (.obj C.name vs) = true) :
-    ∃ x, encode F cfg A.iface C.ns C.name (ClassDef.toTy C) (.obj C.name vs) = [x] ∧ (gen A).valid x = true := by
+    (hr : leavesOne (leafCond A) (ClassDef.toTy C) (.obj C.name vs) = true) :
+    ∃ x, encode A.leaf cfg A.iface C.ns C.name (ClassDef.toTy C) (.obj C.name vs) = [x] ∧ (gen A).valid x = true := by
   have hCa : C ∈ A.allClasses := List.mem_append.mpr (Or.inl hC)
-  obtain ⟨x, hx, hk, hv⟩ := emitted_validS F G A.facts cfg A.iface (ClassDef.toTy C) (.obj C.name vs) C.ns C.name hc
-    (tyWf_toTy A hwf C hCa) hr
+  obtain ⟨x, hx, hk, hv⟩ := emitted_validS A.leaf (primFacetsA A) (leafCond A) (fun p v h1 h2 => leaf_simpleOkA A G p v h1 h2)
+    cfg A.iface (ClassDef.toTy C) (.obj C.name vs) C.ns C.name hc (tyWf_toTy A hwf C hCa) hr
   refine ⟨x, hx, ?_⟩
   rw [valid_gen A hwf C hC x hk]
-  have hshape := encode_obj_shape F cfg A.iface C.ns C.name C.name C.ns C.base C.fields {} vs
+  have hshape := encode_obj_shape A.leaf cfg A.iface C.ns C.name C.name C.ns C.base C.fields {} vs
   simp only [ClassDef.toTy] at hx hv ⊢
   rw [hshape] at hx
   injection hx with hx _
